@@ -397,3 +397,21 @@ def check_atomic_removal(run, prog, bodies, label='', namer=None):
                         site='%s (%s)' % (body.name, body.loc(bs)), path=['store removal via %s' % ' -> '.join(chs), 'queue removal via %s' % ' -> '.join(chq)],
                         oracle='S- before its Q- only inside one region where a queue guard must be held')
     return n, bad
+
+
+def check_no_try_locks(run, world, rule, only=lambda b: True):
+    """an effect that is skipped when a lock happens to be busy is lost under contention (hit not counted,
+    key not re-queued, entry not purged): cache code must wait for its locks"""
+    n = 0
+    for body in world.bodies:
+        if not only(body):
+            continue
+        for blk, a in world.held[body.id].acq.items():
+            n += 1
+            short = a.cn.rsplit('::', 1)[-1]
+            if short.startswith('try_'):
+                run.bad(rule, '%s/%s' % (body.name, short), '%s acquires %s with %s at %s: when the lock is busy the guarded update is silently skipped, so the bookkeeping (hit '
+                        'counters, recency order, purges) is no longer exact under concurrency' % (body.name, a.cls, short, a.span), site='%s (%s)' % (body.name, a.span),
+                        oracle='cache bookkeeping waits for its locks')
+    run.ok(rule, 'no-try-acquisitions', '%d lock / borrow / DashMap acquisitions examined, none is a try_* variant' % n)
+    return n
